@@ -65,6 +65,9 @@ def tzinfo_of(off, kind, zone=None, fields=None, is_dst=False):
     return dt.timezone(dt.timedelta(microseconds=off))
 
 
+DONOR = [None]        # how to write the donor of the current case again (None: the case has no donor)
+
+
 def build_input(spec, p, c):
     if "str" in spec:
         return spec["str"]
@@ -76,9 +79,16 @@ def build_input(spec, p, c):
     if spec.get("cls") == "stix":
         return STIXdatetime(y, m, d, hh, mm, ss, us, tz, precision=p, precision_constraint=c, fold=fold)
     if "src" in spec:
-        # a STIXdatetime produced by an earlier parse_into_datetime at another precision/constraint
-        # (e.g. a timestamp taken from one object and given to a property of another)
-        return parse_into_datetime(dt.datetime(y, m, d, hh, mm, ss, us, tz, fold=fold), spec["src"][0], spec["src"][1])
+        # a STIXdatetime produced by an earlier parse_into_datetime at another precision/constraint, or taken from
+        # the timestamp property of an object built before (the donor): handed on to another property
+        raw = dt.datetime(y, m, d, hh, mm, ss, us, tz, fold=fold)
+        if spec.get("src_route"):
+            donor = OBJ_ROUTES[spec["src_route"]](raw)
+            DONOR[0] = lambda: json.loads(donor.serialize())[spec["src_route"].split(".")[-1]]
+            return donor[spec["src_route"].split(".")[-1]]
+        v = parse_into_datetime(raw, spec["src"][0], spec["src"][1])
+        DONOR[0] = lambda: format_datetime(v)
+        return v
     return dt.datetime(y, m, d, hh, mm, ss, us, tz, fold=fold)
 
 
@@ -120,12 +130,33 @@ def forms(p, c, af):
 
 
 def run(case):
+    """the answer, and -- when the input value was taken from a donor -- how the donor is written before and after"""
+    DONOR[0] = None
+    r = run_(case)
+    if DONOR[0] is not None and not r.startswith("BADCASE"):
+        try:
+            r += " || DONOR %s %s" % (DONOR_BEFORE[0], DONOR[0]())
+        except Exception as e:  # noqa: BLE001
+            r += " || DONOR %s %s" % (DONOR_BEFORE[0], exc(e).replace(" ", "_"))
+    return r
+
+
+DONOR_BEFORE = [None]
+
+
+def run_(case):
     k = case["k"]
     p, c = case["p"], case["c"]
     try:
         value = build_input(case["in"], p, c)
     except Exception as e:  # noqa: BLE001
+        DONOR[0] = None
         return "BADCASE " + type(e).__name__
+    if DONOR[0] is not None:
+        try:
+            DONOR_BEFORE[0] = DONOR[0]()
+        except Exception:  # noqa: BLE001 -- a donor that cannot be written (outside years 1..9999): nothing to compare
+            DONOR[0] = None
     text = None
     how = case.get("via")
     if k == "fmt":
